@@ -64,7 +64,7 @@ ASSUMPTIONS = [
     "is not seen by the skip (end-point hashing); it is found at the next start-up because record and disk differ",
 ]
 
-from .p_c03_sigs import SIG_OTHER, SIG_RECONF, SIG_RERUN, SIG_SKIP_WINDOW, SIG_VALIDATE_LOOP
+from .p_c03_sigs import SIG_AMENDED_RECORD, SIG_OTHER, SIG_RECONF, SIG_RERUN, SIG_SKIP_WINDOW, SIG_VALIDATE_LOOP
 
 
 def generate(ctx):
@@ -755,7 +755,12 @@ def oracle_case(ctx, case, fails):
                 changed_under.append((path, dyn, seen, code))
         for path, dyn, seen, code in changed_under:
             why = [e for e in case.log if r["start"] < e["order"] <= r["end"] and e.get("path") == path]
-            if any(e["what"] == "producer-stop" and e["ok"] for e in why):
+            req = min([v["order"] for v in r["amend_verdicts"] if not v["rejected"] and path in v["paths"]], default=None)
+            if dyn and path not in r["initial"] and req is not None and \
+                    any(e["what"] in ("confirm", "producer-stop") and e["order"] > req for e in why):
+                # the record of an AMENDED input was replaced after the request (declared inputs: D19)
+                sig = SIG_AMENDED_RECORD
+            elif any(e["what"] == "producer-stop" and e["ok"] for e in why):
                 sig = SIG_RERUN
             elif any(e["what"] == "confirm" for e in why):
                 sig = SIG_RECONF
@@ -959,6 +964,16 @@ WITNESS_RERUN_AMENDED = {
               "during": [["amend", ["f02.txt"]], ["pstart", "f02.txt"], ["tick", 2], ["pfinish", "f02.txt", True, 7]],
               "rc": 0, "write_out": True}],
 }
+# finding C03-amended-record: c amends the static file f01.txt (accepted), the file is edited and its new
+# hash recorded by another actor while the command of c still runs (props/C03.v
+# C03_amended_record_full_refuted_by_reconfirmation)
+WITNESS_AMENDED_RECORD = {
+    "files": {"f01.txt": "conf", "f02.txt": "built"},
+    "initial": ["f02.txt"], "static_owner": {}, "cap": 2, "keep_going": False,
+    "runs": [{"before": [["tick", 1]],
+              "during": [["amend", ["f01.txt"]], ["write", "f01.txt", 9], ["confirm", "f01.txt"]],
+              "rc": 0, "write_out": True}],
+}
 WITNESS_CHANGED = {
     "files": {"f01.txt": "conf", "f02.txt": "built"},
     "initial": ["f01.txt", "f02.txt"], "static_owner": {}, "cap": 2, "keep_going": True,
@@ -1159,7 +1174,7 @@ def report(ctx, fails):
 def fixed_witnesses(ctx):
     """Replay of the Coq witnesses (props/C03.v *_refuted) and of basic expectations."""
     specs = [WITNESS_RERUN, WITNESS_RECONF, WITNESS_RERUN_AMENDED, WITNESS_CHANGED, WITNESS_UNFRESH,
-             WITNESS_VALIDATE_LOOP, WITNESS_SKIP]
+             WITNESS_VALIDATE_LOOP, WITNESS_SKIP, WITNESS_AMENDED_RECORD]
     checks, descr, fails = run_consumer_cases(ctx, len(specs), specs=specs)
     bad = common.run_cases(ctx, "witness", HEADER, checks, chunk=40)
     for i in bad:
@@ -1198,9 +1213,10 @@ def oracle(ctx):
     fails += system_witness(ctx)
     from .c03_e3 import run_e3
     fails += run_e3(ctx)
-    from .c03_repl import replace_system, unreadable_input_system
+    from .c03_repl import amended_record_system, replace_system, unreadable_input_system
     fails += replace_system(ctx)
     fails += unreadable_input_system(ctx)
+    fails += amended_record_system(ctx)
     ctx.count("oracle_failures", len(fails))
     report(ctx, fails)
 
